@@ -25,7 +25,7 @@ def _ck():
 
 
 # which lanes a property uses ------------------------------------------------------------------
-VERUS_PROPS = ['C01', 'C02', 'C03', 'C04', 'C05', 'C07', 'C08', 'C09', 'C10', 'C11', 'C12', 'C14', 'C15', 'C17', 'C18']
+VERUS_PROPS = ['C01', 'C02', 'C03', 'C04', 'C05', 'C07', 'C08', 'C09', 'C10', 'C11', 'C12', 'C14', 'C15', 'C16', 'C17', 'C18']
 THOROUGH_CACHE = {}
 LEVEL = {p: 'proof' for p in VERUS_PROPS}
 LEVEL.update({'C05': 'other', 'C16': 'proof', 'C19': 'other'})
